@@ -192,7 +192,13 @@ let () =
                       let holes = (match y with MkPoly (_, rs) -> List.length rs - 1) in
                       if holes > 0 && (not thorough) && int_of_nat (n_segments (GPoly y)) > 11 then
                         count "interior_theorem_nest_okb_skipped_large_in_quick_tier"
-                      else if timed "nest_okb" (fun () -> nest_okb y) then count "interior_theorem_nest_okb_holds"
+                      else if timed "nest_okb" (fun () -> nest_okb2 y) then begin
+                        count "interior_theorem_nest_okb_holds";
+                        (* thorough tier, lattice: the whole polygon clause of ogc_valid (count only: its
+                           agreement with Validate is the subject of C03) *)
+                        if thorough && lattice then
+                          count (if timed "ogc_nest_okb" (fun () -> ogc_nest_okb y) then "ogc_polygon_clause_holds" else "ogc_polygon_clause_fails")
+                      end
                       else if lattice then failc "CORR" (nm "interior_theorem_nest_okb_fails_on_valid_polygon") (d ())
                       else count "float_polygon_nesting_exactly_invalid_excluded";
                       (match x, point_xy nd.gp with
